@@ -1,0 +1,25 @@
+//go:build verif
+
+// Contracts for the deductive verifier in /verif (comment-only file; see /verif/DESIGN.md).
+package describegroups
+
+//@ property C04
+
+// Wire layout per version, from the Kafka protocol definition of this API (field order, types and the versions each field
+// exists in); the encoders and decoders are compiled from the struct tags, so the tags are checked against it.
+//@ wire Request
+//@   layout v0..v2 Groups []string
+//@   layout v3..v4 Groups []string, IncludeAuthorizedOperations bool
+//@   layout v5 _ struct{} @-1, Groups []string, IncludeAuthorizedOperations bool
+//@ wire Response
+//@   layout v0 Groups []ResponseGroup
+//@   layout v1..v4 ThrottleTimeMs int32, Groups []ResponseGroup
+//@   layout v5 _ struct{} @-1, ThrottleTimeMs int32, Groups []ResponseGroup
+//@ wire ResponseGroup
+//@   layout v0..v2 ErrorCode int16, GroupID string, GroupState string, ProtocolType string, ProtocolData string, Members []ResponseGroupMember
+//@   layout v3..v4 ErrorCode int16, GroupID string, GroupState string, ProtocolType string, ProtocolData string, Members []ResponseGroupMember, AuthorizedOperations int32
+//@   layout v5 _ struct{} @-1, ErrorCode int16, GroupID string, GroupState string, ProtocolType string, ProtocolData string, Members []ResponseGroupMember, AuthorizedOperations int32
+//@ wire ResponseGroupMember
+//@   layout v0..v3 MemberID string, ClientID string, ClientHost string, MemberMetadata bytes, MemberAssignment bytes
+//@   layout v4 MemberID string, GroupInstanceID string?, ClientID string, ClientHost string, MemberMetadata bytes, MemberAssignment bytes
+//@   layout v5 _ struct{} @-1, MemberID string, GroupInstanceID string?, ClientID string, ClientHost string, MemberMetadata bytes, MemberAssignment bytes
